@@ -31,7 +31,14 @@ CHECK = {
                   "about an emitter model of NativeChip / Pow2RangeChip / P2RDecompositionChip / NativeGadget, "
                   "with gates regenerated from the real configure and the emitters compared cell by cell with "
                   "the real synthesis on every run",
-    "level_note": "Proved for the listed operations; VectorGadget, MapGadget, bitwise word instructions are "
-                  "not modelled. Trusted: Lean kernel, harness/recorder, halo2 layouter semantics",
+    "level_note": "Proved (soundness, every assignment/field/context): linear combinations of any length, add/sub/"
+                  "neg/mul/div/inv/inv0, constants, assertions, equality and zero tests, select/cond_swap, boolean "
+                  "logic on lists, bit equality, decompose_core / assert_less_than_pow2 (every limb-size list, 1..4 "
+                  "lookup columns), assert_lower_than_fixed (partial: bound-cache early return), lower_than; "
+                  "completeness for is_equal, inv, cond_swap. div_rem: unsound without a dividend bound (known "
+                  "finding), proved under bound + divisor <= p. Correspondence-only: canonicity of bit strings, "
+                  "bits/bytes/chunks/sgn0, conversions, comparison variants, add_constants, pow. Not modelled: "
+                  "VectorGadget, MapGadget, bitwise word instructions. Trusted: Lean kernel, harness/recorder, halo2 "
+                  "layouter semantics",
     "timeout": {"quick": 900, "thorough": 3000, "search": 900},
 }
